@@ -307,3 +307,9 @@ func tierFromArgs(args []string) string {
 	}
 	return tier
 }
+
+func cleanup(dir string) {
+	if os.Getenv("VCHECK_KEEP") == "" {
+		os.RemoveAll(dir)
+	}
+}
